@@ -3,7 +3,7 @@
     [unambig_check syms p = true].  The theorems say what a passed check covers. *)
 From Coq Require Import NArith Arith List Bool.
 Import ListNotations.
-From NV Require Import Machine.Dfa Regex.Re Ref.Lang Ref.LangEq Ref.RefSem Ref.Unambig.
+From NV Require Import Machine.Dfa Regex.Re Ref.Lang Ref.LangEq Ref.RefSem Ref.Unambig Ref.UnambigAll.
 
 (** no decision of any configuration in the table is ambiguous, on any symbol of interest *)
 Theorem c09_no_decision_ambiguous : forall f syms tbl, find_ambiguity f syms tbl = None ->
@@ -18,6 +18,14 @@ Theorem c09_reachable_in_table : forall syms p tbl, table_closed syms p tbl = tr
   forall K, reachable syms p K -> In K tbl.
 Proof. intros syms p tbl H. apply (reachable_in_table syms p tbl H). intros K K0 _. apply cfg_eqb_ok. Qed.
 Print Assumptions c09_reachable_in_table.
+
+(** both together: a program that passes the check has no ambiguous decision in any configuration its reading can
+    reach on any input over the symbols of interest *)
+Theorem c09_checked_program_is_unambiguous : forall syms p, unambig_check syms p = true ->
+  forall K, reachable syms p K -> forall K1, In K1 (leaves (settle false ref_fuel K)) -> forall s, In s syms ->
+  ambiguous_at ref_fuel K1 s = None.
+Proof. exact unambig_check_sound. Qed.
+Print Assumptions c09_checked_program_is_unambiguous.
 
 (** examples over bytes a b:  /a+/; "ab"  is ambiguous at the second a;  /a+/; "b"  is not *)
 Definition a_ : N := 97%N. Definition b_ : N := 98%N.
